@@ -817,23 +817,7 @@ fn run_program(fl: Flavour, cap: usize, steps: usize, rng: &mut Rng, tiny: bool)
       8 => {
         if nrx < 5 {
           let i = rng.below(nrx as u64) as usize;
-          if w.rxs[i].busy || w.rxs[i].closed {
-            continue;
-          }
-          let nid = w.fresh_id();
-          let mut ev = Ev::new(0, w.rxs[i].id, Side::Rx, Form::Clone, w.rxs[i].a.is_some());
-          ev.aux = nid as u64;
-          let idx = w.log.begin(ev);
-          let (a, s) = match (&w.rxs[i].a, &w.rxs[i].s) {
-            (Some(a), _) => (a.try_clone(), None),
-            (None, Some(s)) => (None, s.try_clone()),
-            _ => (None, None),
-          };
-          let ok = a.is_some() || s.is_some();
-          w.log.end(idx, |e| e.out = if ok { Out::Ok } else { Out::Empty });
-          if ok {
-            w.rxs.push(RxS { id: nid, a, s, busy: false, closed: false, disconnected: false });
-          }
+          clone_rx(&mut w, i);
         }
       }
       // drop a sender handle (never the last one before the final third)
@@ -885,6 +869,15 @@ fn run_program(fl: Flavour, cap: usize, steps: usize, rng: &mut Rng, tiny: bool)
         if fl.oneshot() || fl.broadcast() || step * 2 < steps {
           continue;
         }
+        if fl.multi_consumer() && rng.chance(1, 2) {
+          // more waiters than the capacity
+          let mut guard = 0;
+          while w.rxs.len() < 5 && guard < 8 {
+            guard += 1;
+            clone_rx(&mut w, 0);
+          }
+        }
+        let nrx = w.rxs.len();
         for i in 0..nrx {
           if w.panicked.is_some() {
             break;
@@ -900,7 +893,27 @@ fn run_program(fl: Flavour, cap: usize, steps: usize, rng: &mut Rng, tiny: bool)
           w.spawn_recv(i, kind, max);
         }
         w.note("template: receivers pending; now values, then every sender leaves".into());
-        let nvals = rng.range(1, 3) as usize;
+        let batch = fl.has_batch() && rng.chance(1, 2);
+        if batch {
+          // one batch larger than the capacity, polled once
+          for i in 0..ntx {
+            if w.txs[i].busy || w.txs[i].closed || (w.txs[i].a.is_none() && w.txs[i].s.is_none()) {
+              continue;
+            }
+            if w.txs[i].a.is_none() && !w.tx_to_async(i) {
+              continue;
+            }
+            let n = cap + 1 + rng.below(3) as usize;
+            w.spawn_send(i, 1 + rng.below(2) as u8, n);
+            break;
+          }
+          if rng.chance(1, 2) {
+            // stop here: the values sit where the channel put them, nobody has been polled
+            w.quiescence_check("template: waiters + batch");
+            continue;
+          }
+        }
+        let nvals = if batch { 0 } else { rng.range(1, 3) as usize };
         'vals: for _ in 0..nvals {
           for i in 0..ntx {
             if w.panicked.is_some() {
@@ -1058,6 +1071,26 @@ fn run_program(fl: Flavour, cap: usize, steps: usize, rng: &mut Rng, tiny: bool)
   drop_rx(&mut w, 0);
   let evs = w.log.snapshot();
   (w, evs, had_pending)
+}
+
+fn clone_rx(w: &mut World, i: usize) {
+  if w.rxs[i].busy || w.rxs[i].closed {
+    return;
+  }
+  let nid = w.fresh_id();
+  let mut ev = Ev::new(0, w.rxs[i].id, Side::Rx, Form::Clone, w.rxs[i].a.is_some());
+  ev.aux = nid as u64;
+  let idx = w.log.begin(ev);
+  let (a, s) = match (&w.rxs[i].a, &w.rxs[i].s) {
+    (Some(a), _) => (a.try_clone(), None),
+    (None, Some(s)) => (None, s.try_clone()),
+    _ => (None, None),
+  };
+  let ok = a.is_some() || s.is_some();
+  w.log.end(idx, |e| e.out = if ok { Out::Ok } else { Out::Empty });
+  if ok {
+    w.rxs.push(RxS { id: nid, a, s, busy: false, closed: false, disconnected: false });
+  }
 }
 
 fn drop_tx(w: &mut World, i: usize) {
